@@ -6,7 +6,7 @@ TRUSTED_BASE = [
     "axioms: only those printed under coverage.axioms_used (allow-list propext, Classical.choice, Quot.sound)",
     "hand-written Lean model of the jubako code paths named in DESIGN.md §6 (modelled, not verified: the theorems are about the model)",
     "correspondence harness (Rust, in-process calls into /repo built from the working tree with --cfg jubako_verif), its generators and canonicalisation, and the line diff of tools/engine.py",
-    "tools/extract_consts.py (regex extraction of constants into Generated/Consts.lean)",
+    "tools/extract_consts.py (regex extraction of constants into Generated/Consts.lean), tools/extract_layouts.py (field layouts), tools/extract_funcs.py + tools/rs2lean.py (Rust-fragment to Lean translation of small pure function bodies: Nat arithmetic, truncated subtraction, wrap-around only at `as uN` casts, `?`/newtype wrappers erased)",
 ]
 
 PROPS = {
